@@ -117,61 +117,6 @@ Lemma sp_backref_false_eq u np l r : sp_backref u np l = SOk false r -> r = l.
 Proof. intros H. apply sp_backref_sound in H. destruct H as [[H _]|[_ [H _]]]; [discriminate|exact H]. Qed.
 Lemma sp_legacy_octal_false_eq l r : sp_legacy_octal l = (false, r) -> r = l.
 Proof. intros H. apply sp_legacy_octal_false in H. apply H. Qed.
-(* consume_atom_escape in pieces *)
-Definition sp_cce (l : list N) : SR bool :=
-  match l with c :: r => if character_class_escape c then SOk true r else SOk false l | [] => SOk false l end.
-Definition sp_ce (u : bool) (l : list N) : SR bool :=
-  match l with
-  | [] => SOk false l
-  | c :: r =>
-      if control_escape c then SOk true r
-      else if (c =? 99) && starts_letter r then SOk true (tl r)
-      else if (c =? 48) && negb (starts_digit r) then SOk true r
-      else
-        match sp_hex_esc u l with
-        | SOk true r' => SOk true r'
-        | SOk false _ =>
-            match sp_unicode_esc u l with
-            | SOk true r' => SOk true r'
-            | SOk false _ =>
-                let '(b, r') := if u then (false, l) else sp_legacy_octal l in
-                if b then SOk true r' else if identity_escape u c then SOk true r else SOk false l
-            | SErr => SErr
-            | SFuel => SFuel
-            end
-        | SErr => SErr
-        | SFuel => SFuel
-        end
-  end.
-Lemma sp_atom_escape_split u np l : sp_atom_escape u np l =
-  match sp_backref u np l with
-  | SOk true r' => SOk true r'
-  | SOk false _ =>
-      match sp_cce l with
-      | SOk true r' => SOk true r'
-      | SOk false _ =>
-          match sp_ce u l with
-          | SOk true r' => SOk true r'
-          | SOk false _ => if u then SErr else SOk false l
-          | SErr => SErr
-          | SFuel => SFuel
-          end
-      | SErr => SErr
-      | SFuel => SFuel
-      end
-  | SErr => SErr
-  | SFuel => SFuel
-  end.
-Proof.
-  unfold sp_atom_escape. destruct (sp_backref u np l) as [[|] r0| |]; try reflexivity.
-  destruct l as [|c r]; [reflexivity|]. cbn [sp_cce sp_ce].
-  destruct (character_class_escape c); [reflexivity|]. destruct (control_escape c); [reflexivity|].
-  destruct ((c =? 99) && starts_letter r); [reflexivity|]. destruct ((c =? 48) && negb (starts_digit r)); [reflexivity|].
-  destruct (sp_hex_esc u (c :: r)) as [[|] r1| |]; try reflexivity.
-  destruct (sp_unicode_esc u (c :: r)) as [[|] r2| |]; try reflexivity.
-  destruct (if u then (false, c :: r) else sp_legacy_octal (c :: r)) as [[|] r3]; [reflexivity|].
-  destruct (identity_escape u c); reflexivity.
-Qed.
 Lemma sp_cce_false_eq l r : sp_cce l = SOk false r -> r = l.
 Proof. destruct l as [|c l']; cbn [sp_cce]; [intros [= <-]; reflexivity|]. destruct (character_class_escape c); [discriminate|intros [= <-]; reflexivity]. Qed.
 Lemma sp_ce_false_eq u l r : sp_ce u l = SOk false r -> r = l.
@@ -887,16 +832,16 @@ Qed.
 
 (* count_capturing_parens on fragment inputs: the groups count_groups finds *)
 Lemma count_parens_groups u : forall l esc acc, scan u esc l = true ->
-  count_parens l false esc acc = (acc + count_groups l esc)%N.
+  count_parens l false esc acc = (acc + count_groups l false esc)%N.
 Proof.
   induction l as [|c r IH]; intros esc acc Hs; [cbn; lia|].
   cbn [count_parens count_groups]. destruct esc.
   { cbn [scan] in Hs. apply andb_true_iff in Hs. apply IH. apply Hs. }
-  cbn [scan] in Hs. unfold c_bs, c_lb, c_rb, c_lp, g_backslash, g_lparen in *.
+  cbn [scan] in Hs. unfold c_bs, c_lb, c_rb, c_lp, g_backslash, g_lparen, g_lbracket, g_rbracket in *.
   destruct (c =? 92)%N eqn:Ebs; [apply IH; exact Hs|].
   apply andb_true_iff in Hs. destruct Hs as [Hs Hr]. apply andb_true_iff in Hs. destruct Hs as [Hp Hl].
   destruct (c =? 91)%N eqn:Elb; [apply N.eqb_eq in Elb; subst c; discriminate Hp|].
-  destruct (c =? 93)%N eqn:Erb; [apply N.eqb_eq in Erb; subst c; cbn [N.eqb Pos.eqb andb]; apply IH; exact Hr|].
+  destruct (c =? 93)%N eqn:Erb; [apply IH; exact Hr|].
   destruct (c =? 40)%N eqn:Elp; cbn [andb negb]; [|apply IH; exact Hr].
   apply N.eqb_eq in Elp. subst c.
   assert (E : (negb (is c_q (nth_error r 0)) ||
@@ -982,7 +927,7 @@ Lemma consume_pattern_sim u s l : skipn (pos s) (units (rd s)) = l -> strict s =
 Proof.
   intros Hl H1 H2 H3 Hf. unfold consume_pattern, count_capturing_parens. rewrite Hl.
   rewrite (count_parens_groups u l false 0 Hf). rewrite N.add_0_l.
-  set (np := count_groups l false).
+  set (np := count_groups l false false).
   set (s' := s <| ncap := np |> <| gnames := [] |> <| brnames := [] |>).
   assert (Ha : at_ u np s' l) by (destruct s as [[us i] ? ? ? ? ? ? ? ? ? ? ? ? ?]; unfold pos in *; cbn in *; repeat split; assumption).
   assert (Hg : gnames s' = []) by (destruct s as [[us i] ? ? ? ? ? ? ? ? ? ? ? ? ?]; reflexivity).
